@@ -285,6 +285,9 @@ def main():
             payload['native_detail'] = nf['detail']
             path = write_replay(name, payload)
             violations.append('VIOLATION property=%s replay=%s obligation=%s' % (pid, path, name))
+        elif status != 'refuted' and 'timeout' in (str(model) + str(reason) + str(status)):
+            # a solver timeout is not a refutation: undecided (exit 2), never a violation
+            undecided.append('UNDECIDED property=%s target=%s: solver timeout, no counterexample' % (pid, name))
         else:
             path = write_replay(name, payload)
             violations.append('VIOLATION property=%s replay=%s obligation=%s no-failing-input-found' % (pid, path, name))
